@@ -47,7 +47,7 @@ def run(F):
     cutters = iterate | {p.split("::")[-1] for p in entries} | {"from_residual"}
     n = 0
     for path, b in sorted(entries.items()):
-        bodies = [b] + [c for c in F.bodies if c.is_closure() and (c.d.get("parent") or "") == b.path]
+        bodies = [b] + [c for c in F.bodies if c.is_closure() and c.path.startswith(b.path + "::{closure#")]
         # forward taint from the guess parameter(s), per body; closures: captured guess = upvar whose name is the parameter's name
         gnames = {b.lname(l) for l in _guess_params(b)}
         leak = None
@@ -91,7 +91,13 @@ def run(F):
                         clos = [c_ for c_ in clos if c_]
                         if clos and t["args"] and op_t(t["args"][0]):
                             param_taint.update(clos)      # the closure is applied to the (tainted) receiver's payload
-                        if nm in ("and_then", "map", "then", "then_some") and clos:
+                        if nm in ("call", "call_mut", "call_once") and clos and boolsum.closure_def_of_type(x.opty(t["args"][0])) in clos:
+                            # a local closure applied to arguments: its parameters receive them, its result is what it returns
+                            cdef = boolsum.closure_def_of_type(x.opty(t["args"][0]))
+                            if any(op_t(a) for a in t["args"][1:]):
+                                param_taint.add(cdef)
+                            hit = bool(ret_taint.get(cdef))
+                        elif nm in ("and_then", "map", "then", "then_some") and clos:
                             # the result is what the closure returns, not the receiver
                             hit = any(ret_taint.get(c_) for c_ in clos)
                         else:
